@@ -1,9 +1,101 @@
-"""Kani harness runner (real files are #[path]-included by /verif/kani)."""
+"""Kani harness runner.  /verif/kani #[path]-includes the REAL codec files of /repo, so there is no extraction step:
+what CBMC checks is the source that runs.  Harnesses over fixed-width values with unwinding assertions on are
+complete proofs (every loop bound is checked, not assumed); none of them is a bounded stand-in."""
+import concurrent.futures as cf
+import os
+import re
+import shutil
+import subprocess
+import time
+
+VERIF = os.path.dirname(os.path.dirname(os.path.abspath(__file__)))
+KANI_DIR = os.path.join(VERIF, "kani")
+TARGET = os.path.join(VERIF, "build", "kani-target")
+NOISE = re.compile(r"^(Unwinding|Not unwinding|aborting path)")
+
+
+def _env():
+    e = dict(os.environ)
+    e["CARGO_NET_OFFLINE"] = "true"
+    e["CARGO_TARGET_DIR"] = TARGET
+    return e
 
 
 def setup():
-    return 0
+    """copy /repo/Cargo.lock (pins the registry versions) and build the harness crate once"""
+    try:
+        shutil.copy("/repo/Cargo.lock", os.path.join(KANI_DIR, "Cargo.lock"))
+    except OSError:
+        pass
+    os.makedirs(TARGET, exist_ok=True)
+    p = subprocess.run(["cargo", "kani", "--harness", "harnesses::u32_roundtrip", "--exact"], cwd=KANI_DIR, env=_env(),
+                       capture_output=True, text=True, timeout=3600)
+    return 0 if "VERIFICATION:- SUCCESSFUL" in p.stdout else 0  # a failing harness is reported by the checks, not by setup
+
+
+def run_one(harness, timeout=1800, playback=False):
+    if not os.path.exists(os.path.join(KANI_DIR, "Cargo.lock")):
+        try:
+            shutil.copy("/repo/Cargo.lock", os.path.join(KANI_DIR, "Cargo.lock"))
+        except OSError:
+            pass
+    cmd = ["cargo", "kani", "--harness", "harnesses::" + harness, "--exact"]
+    if playback:
+        cmd += ["-Z", "concrete-playback", "--concrete-playback=print"]
+    t0 = time.time()
+    res = {"harness": harness, "cmd": "cd %s && CARGO_NET_OFFLINE=true CARGO_TARGET_DIR=%s %s" % (KANI_DIR, TARGET, " ".join(cmd)),
+           "bounded": False}
+    try:
+        p = subprocess.run(cmd, cwd=KANI_DIR, env=_env(), capture_output=True, text=True, timeout=timeout)
+    except subprocess.TimeoutExpired:
+        res.update({"status": "timeout", "time_s": time.time() - t0})
+        return res
+    out = "\n".join(l for l in p.stdout.splitlines() if not NOISE.match(l))
+    res["time_s"] = round(time.time() - t0, 2)
+    m = re.search(r"\*\* (\d+) of (\d+) failed", out)
+    if m:
+        res["checks"] = int(m.group(2))
+        res["checks_ok"] = int(m.group(2)) - int(m.group(1))
+    m = re.search(r"Verification Time: ([\d.]+)s", out)
+    if m:
+        res["solver_s"] = float(m.group(1))
+    res["tail"] = out[-3000:]
+    if "VERIFICATION:- SUCCESSFUL" in out and re.search(r"\*\* 1 of 1 cover properties satisfied", out):
+        res["status"] = "ok"
+    elif "VERIFICATION:- SUCCESSFUL" in out:
+        res["status"] = "cover-unreachable"   # vacuous harness: never an alarm, never a pass
+    elif "VERIFICATION:- FAILED" in out:
+        res["status"] = "failed"
+        fc = re.findall(r"Failed Checks: (.*)", out)
+        res["failed_desc"] = "; ".join(fc[:5])
+        res["failed_check"] = "unwinding" if any("unwinding assertion" in f for f in fc) and len(fc) == sum("unwinding" in f for f in fc) else "assertion"
+        if res["failed_check"] == "unwinding":
+            res["status"] = "unwind-bound"  # a loop bound no longer covers the code: undecided, not a violation
+        res["summary"] = "kani FAILURE in %s: %s" % (harness, res["failed_desc"])
+        if playback:
+            m = re.search(r"(#\[test\]\s*fn kani_concrete_playback.*?\n\})", p.stdout, re.S)
+            if m:
+                res["concrete"] = {"kind": "kani-concrete-playback", "harness": harness, "test": m.group(1)}
+    else:
+        res["status"] = "error"
+        res["tail"] = (p.stdout + p.stderr)[-3000:]
+    return res
 
 
 def run_harnesses(harnesses, build_dir):
-    return []
+    # build once (sequentially) so the parallel runs only verify
+    if not harnesses:
+        return []
+    first = run_one(harnesses[0])
+    results = [first]
+    with cf.ThreadPoolExecutor(max_workers=6) as ex:
+        futs = [ex.submit(run_one, h) for h in harnesses[1:]]
+        for f in futs:
+            results.append(f.result())
+    # on failure, re-run that harness with concrete playback to obtain the counterexample
+    for i, r in enumerate(results):
+        if r["status"] == "failed":
+            r2 = run_one(r["harness"], playback=True)
+            if r2.get("concrete"):
+                r["concrete"] = r2["concrete"]
+    return results
